@@ -36,7 +36,11 @@ def params_of(body):
 def run_fn(I, d, args, tsub=None):
     sym.CTX = I.st.ranges          # path facts are scoped to the interpretation; rule code sees none
     try:
-        return I.call_local(d, args, tsub=tsub)
+        r = I.call_local(d, args, tsub=tsub)
+        if I.st.dead:
+            # every path through the function ends in a panic: whatever is read off the state afterwards is vacuous
+            I.top('every evaluated path of %s panics (the function refuses all inputs)' % d, I.f.bodies.get(d, {}).get('sp'))
+        return r
     finally:
         sym.CTX = {}
 
@@ -62,6 +66,9 @@ def byte_view(I, v, ty=None):
 def sym_args(I, body, prefix=''):
     return [I.sym_value(norm_ty(t), prefix + n) for n, t in params_of(body)]
 
+def _mark_dead(I, what):
+    if I.st.dead: I.top('every evaluated path of %s panics (it refuses all inputs)' % what, None)
+
 def emit_value(I, value, ty, facts=None):
     """segments emitted by <ty as Aml>::to_aml_bytes(&value, sink) in interpreter I"""
     f = I.f
@@ -72,6 +79,7 @@ def emit_value(I, value, ty, facts=None):
     sym.CTX = I.st.ranges
     try:
         I.call_local(d, [RefV(Cell(value)), RefV(Cell(sink), True)])
+        _mark_dead(I, 'the serialiser of %s' % ty)
     finally:
         sym.CTX = {}
     I.st.roots.remove(sink)
